@@ -1032,7 +1032,7 @@ func init() {
 	register(&property{
 		Meta: propertyMeta{
 			ID:          "C12",
-			Explanation: "(C12-BRACKET) Group is a save/extend/run/restore bracket on exactly currentGroupPrefix and currentGroupHandlers: the value loaded before any store is stored back on every path from the callback to return, nothing overwrites it afterwards, the scope is extended only before the callback, no other Router field is written, and only Group/Use write the scope fields. (C12-EXTEND) new prefix = previous + formatPath(prefix); new list = previous ++ middles (C04-SEQ shapes). (C12-COPY) the chain stored into a route from the group list is freshly allocated (E-SEQ alias bit through combineHandlers' body), so later Use calls, sibling groups and the restore cannot affect registered routes. (C12-USE) Use extends the group list iff the prefix is non-empty. (C12-VIA) Controller and Resource register only inside the function literal passed to Group.",
+			Explanation: "(C12-BRACKET) Group is a save/extend/run/restore bracket on exactly currentGroupPrefix and currentGroupHandlers: the value loaded before any store is stored back on every path from the callback to return, nothing overwrites it afterwards, the scope is extended only before the callback, no other Router field is written, and only Group/Use write the scope fields. (C12-EXTEND) new prefix = previous + formatPath(prefix); new list = previous ++ middles (C04-SEQ shapes). (C12-COPY) the chain stored into a route from the group list is freshly allocated (E-SEQ alias bit through combineHandlers' body), so later Use calls, sibling groups and the restore cannot affect registered routes. (C12-USE) Use extends the group list iff the prefix is non-empty. (C12-VIA) Controller and Resource register only inside the function literal passed to Group. (C12-DERIVED) every Route field whose stored value depends on route.path (regex, start, a fixed-path flag ...) is computed after appendRoute applied the group prefix and normalised the path.",
 			NotDecided:  []string{"a panic inside the callback leaves the scope extended (no defer; outside the property's quantifier)", "reachability 'exactly under the concatenated prefixes' as a string fact (C11)"},
 			Assumptions: []string{"registration is single-threaded"},
 		},
